@@ -147,7 +147,9 @@ pub fn main(args: &[String]) -> i32 {
     let workdir = PathBuf::from(&args[1]);
     let mut out = std::fs::File::create(&args[2]).expect("out");
     let short_ms: u64 = std::env::var("XSV_SHORT_MS").ok().and_then(|s| s.parse().ok()).unwrap_or(250);
-    let long = Duration::from_secs(30);
+    let long = Duration::from_millis(
+        std::env::var("XSV_LONG_MS").ok().and_then(|s| s.parse().ok()).unwrap_or(30000),
+    );
 
     let sh = Arc::new(Shared {
         m: Mutex::new(World::default()),
